@@ -306,6 +306,24 @@ class Deco:
 v_deco: Deco = Deco()
 
 
+class Req(Awaitable[bytes], Generic[T]):
+    def __await__(self) -> Any: ...
+
+
+class Fut2(Awaitable[T]):
+    def __await__(self) -> Any: ...
+
+
+class AwInt(Awaitable[int]):
+    def __await__(self) -> Any: ...
+
+
+v_req: Req[int] = Req()
+v_req_s: Req[str] = Req()
+v_fut2: Fut2[int] = Fut2()
+v_awint: AwInt = AwInt()
+
+
 @overload
 def o_f(x: int) -> int: ...
 @overload
@@ -413,7 +431,9 @@ def fixed_operands() -> list[tuple[str, str, str | None, bool]]:
     add("index", ["p_user.items[0:1]"])
     add("await", ["await co_int()", "await co_list()", "await co_nt()", "await co_user()", "await co_myint()", "await task_int", "await task_nt", "await co_t(1)", "await co_listt(1)", "await aw_int",
                   "await asyncio.sleep(0)", "await v_user.ameth()", "await asyncio.create_task(co_list())", "await v_any", "(await co_user()).attr", "(await co_user()).items",
-                  "(await co_user()).meth()", "await asyncio.wait_for(co_int(), 1)"])
+                  "(await co_user()).meth()", "await asyncio.wait_for(co_int(), 1)",
+                  # user-defined awaitables: the awaited type is NOT the last type argument in general
+                  "await v_req", "await v_req_s", "await v_fut2", "await v_awint", "await asyncio.ensure_future(co_int())", "await asyncio.gather(co_int())"])
     add("lambda", ["lambda: 1", "(lambda: 1)()", "(lambda: v_list)()", "(lambda: v_nt)()", "(lambda: v_myint)()", "(lambda: v_any)()", "(lambda x: x)(1)", "(lambda x=1: x)()", "(lambda *a: 1)()",
                    "(lambda: f_int())()", "(lambda: [1])()", "(lambda: (1, 2))()", "(lambda: v_int + v_int)()", "(lambda: not v_int)()", "(lambda: v_user)().attr", "(lambda: lambda: 1)()()",
                    "(lambda: IE.ONE)()", "(lambda: (@W0@ := 1))()", "(lambda: v_int if v_bool else v_int)()", "(lambda: undefined_name)()"])
